@@ -143,11 +143,12 @@ def intTypeFrom : List (List (List Nat) × IntType) → Bytes → LexResult IntT
 /-- `int_type` -/
 def intType (input : Bytes) : LexResult IntType := intTypeFrom intTypeTable input
 
-/-- the token of a literal with value `v` and suffix `k`; `none` = `i64::try_from(value)` fails for the
-`l` suffix (fix dc17362: such a literal is rejected instead of wrapping to a negative value) -/
+/-- the token of a literal with value `v` and suffix `k`; `none` = the value does not fit the suffix' type:
+`value > u32::MAX` for `u` (fix 93e9a96), `i64::try_from(value)` fails for `l` (fix dc17362) — such a literal is
+rejected instead of being truncated / wrapping to a negative value -/
 def mkIntToken? (v : Nat) : Option IntType → Option Token
   | none => some (.litInt v)
-  | some .Unsigned32 => some (.litIntU32 v)
+  | some .Unsigned32 => if v < 2 ^ 32 then some (.litIntU32 v) else none
   | some .Unsigned64 => some (.litIntU64 v)
   | some .Signed64 => if v < 2 ^ 63 then some (.litIntS64 (v : Int)) else none
 
